@@ -323,7 +323,7 @@ func checkRefMessage(r *ev.Run, m *dnsref.Msg, tag string) {
 }
 
 func Run(r *ev.Run) {
-	r.Rule("E1 exhaustive families: (A) package-built messages: all 2^5 header flag combinations x opcode{0,15} x rcode{0,3,15}; name pool (0,1,2,127 labels; label length 1/63) in question, owner and RDATA position; A/AAAA/NS/CNAME/PTR/OPT(0..2 options)/HTTPS(every subset of 7 parameters) records; every message with <=2 records per section over a record pool -> round trip, independent decoder, x/net dnsmessage; (B) reference-built packets incl. MX/SOA/TXT/SRV/SVCB(arbitrary params), uncompressed and maximally compressed, every message with <=2 records per section -> DecodeMessage must agree; x/net-packed packets likewise; (C) extended RCODE; (D) AddPadding for question names of every length 1..253 x OPT states x extra records. distinct = distinct wire strings")
+	r.Rule("E1 exhaustive families: (A) package-built messages: all 2^5 header flag combinations x opcode{0,15} x rcode{0,3,15}; name pool (0,1,2,127 labels; label length 1/63) in question, owner and RDATA position; A/AAAA/NS/CNAME/PTR/OPT(0..2 options)/HTTPS(every subset of 7 parameters) records; every message with <=2 records per section over a record pool -> round trip, independent decoder, x/net dnsmessage; (B) reference-built packets incl. MX/SOA/TXT/SRV/SVCB(arbitrary params), uncompressed and maximally compressed, every message with <=2 records per section -> DecodeMessage must agree; x/net-packed packets likewise; reference-built messages of 8..16 KiB whose compression pointers target offsets above 8192; question names spelled with a final dot (and the dot alone); (C) extended RCODE; (D) AddPadding for question names of every length 1..253 x OPT states x extra records. distinct = distinct wire strings")
 	r.Assume("dnsref (independent codec) and x/net dnsmessage v0.42.0 are correct", "HTTPS records use parameter keys 1..6 in ascending order (the package's HTTPS struct cannot represent others); label bytes are LDH and contain no dots")
 	names := namePool()
 
@@ -459,6 +459,54 @@ func Run(r *ev.Run) {
 			}
 			checkRefMessage(r, m, tag)
 		}
+	}
+	// messages larger than 8 KiB and up to the 16 KiB that compression pointers can address: names first spelled out at
+	// offsets 8192..16383 and referenced from later records (the 14-bit offset needs all its bits)
+	for _, filler := range []int{28, 34, 44, 58} {
+		m := &dnsref.Msg{ID: 77, Flags: 0x8180, Q: []dnsref.Question{{Name: "big.example.com", Type: 16, Class: 1}}}
+		for i := 0; i < filler; i++ {
+			m.Sec[0] = append(m.Sec[0], dnsref.RR{Name: "big.example.com", Type: 16, Class: 1, TTL: 30, Fields: dnsref.TXT(strings.Repeat(string(rune('a'+i%26)), 255))})
+		}
+		for i := 0; i < 3; i++ {
+			late := fmt.Sprintf("late%d.zone%d.test", i, filler)
+			m.Sec[1] = append(m.Sec[1],
+				dnsref.RR{Name: late, Type: 2, Class: 1, TTL: 9, Fields: []dnsref.Field{dnsref.N("ns." + late)}},
+				dnsref.RR{Name: late, Type: 15, Class: 1, TTL: 9, Fields: []dnsref.Field{dnsref.U16(5), dnsref.N("mx.ns." + late)}})
+			m.Sec[2] = append(m.Sec[2], dnsref.RR{Name: "ns." + late, Type: 1, Class: 1, TTL: 9, Fields: []dnsref.Field{{Raw: ip4a}}},
+				dnsref.RR{Name: "mx.ns." + late, Type: 28, Class: 1, TTL: 9, Fields: []dnsref.Field{{Raw: ip6a}}})
+		}
+		if n := len(m.Encode(true)); n <= 8192+200 && filler >= 34 {
+			ev.ToolError("c13 big-message family: only %d bytes", n)
+		}
+		checkRefMessage(r, m, "big-message")
+	}
+	// QUESTION names spelled with a trailing dot (fully qualified) or consisting of the dot alone: the question encoder accepts
+	// that spelling (it strips the dot), so the wire form must be that of the bare name. (Owner and RDATA names are only
+	// defined in the bare form the decoder produces; dotted spellings there are outside the property's domain.)
+	for _, nm := range []string{".", "example.com.", "a."} {
+		bare := strings.TrimSuffix(nm, ".")
+		func() {
+			tag := "dotted-question-name:" + map[bool]string{true: "root", false: "fqdn"}[bare == ""]
+			defer func() {
+				if p := recover(); p != nil {
+					r.Violation("panic:"+tag, fmt.Sprint(p), nm)
+				}
+			}()
+			mk := func(n string) dns.Message { return dns.Message{Question: []dns.Question{{Name: n, Type: 1, Class: 1}}} }
+			got, want := mk(nm).Bytes(), mk(bare).Bytes()
+			if !bytes.Equal(got, want) {
+				r.Violation("encode-differs:"+tag, fmt.Sprintf("question name %q encodes to %x, the same name without the final dot to %x", nm, got, want), nm)
+			}
+			if ref, err := dnsref.Decode(got); err != nil {
+				r.Violation("ref-rejects-encoding:"+tag, fmt.Sprintf("independent decoder rejects the encoding of question name %q: %v (%x)", nm, err, got), nm)
+			} else if ref.Q[0].Name != bare {
+				r.Violation("ref-reads-differently:"+tag, fmt.Sprintf("question name %q reads back as %q", nm, ref.Q[0].Name), nm)
+			}
+			if back, err := dns.DecodeMessage(got); err != nil || len(back.Question) != 1 || back.Question[0].Name != bare || back.Question[0].Type != 1 {
+				r.Violation("roundtrip-differs:"+tag, fmt.Sprintf("question name %q decodes back as %+v (%v)", nm, back, err), nm)
+			}
+			r.Eval(string(got)+tag, "encode-ok")
+		}()
 	}
 	// hand-compressed forms other encoders may produce: a pointer whose target is itself a pointer (chains of 1..4 hops),
 	// pointers into the middle of a name, pointers from RDATA names to owner names and to RDATA names
